@@ -39,13 +39,13 @@ def run(ctx):
     ctx.need_module(M)
     ctx.need_module(FS)
     ctx.need_module("optimism.SparseMatrixAssembler")
-    d1(ctx)
-    d2_hess_wiring(ctx)
-    d2_paths(ctx)
-    d2_factories(ctx)
-    d2_newmark(ctx)
-    d2_projection_guard(ctx)
-    d3_blocks(ctx)
+    ctx.guard(d1, ctx)
+    ctx.guard(d2_hess_wiring, ctx)
+    ctx.guard(d2_paths, ctx)
+    ctx.guard(d2_factories, ctx)
+    ctx.guard(d2_newmark, ctx)
+    ctx.guard(d2_projection_guard, ctx)
+    ctx.guard(d3_blocks, ctx)
     from .common import hook_agreement, mode_dispatch
     for f_ in FACTORIES:
         hook_agreement(ctx, "D2/T6-one-gradient-transformation", f"{M}:{f_}", min_sites=3)
